@@ -360,6 +360,7 @@ type loopSnapshot struct {
 	dec     *Term
 	pre     *State            // state at loop entry (before havoc)
 	headMem map[string]*Term  // memories right after havoc + assume
+	headState *State          // the state at the loop head (for memories first touched inside the body)
 	water   *Term             // watermark at loop head
 	objs    []*Term           // objects the loop may modify
 	flocs   []*Term           // exact locations the loop may modify
